@@ -306,29 +306,74 @@ def rule_mode(ctx, px):
         "the complete list",
     )
     f = px.func(RUN_MOD, "ArgparseRunner._build_post_processor_list_from_args")
-    appends = []
-    for st, g in pyfront.walk_guarded(f.node.body):
-        if isinstance(st, ast.Expr) and isinstance(st.value, ast.Call) and isinstance(st.value.func, ast.Attribute) \
-                and st.value.func.attr in ("append", "insert", "extend"):
-            appends.append((st, g))
-    sfm = [(st, g) for st, g in appends if "SetFileMode(" in ast.unparse(st)]
-    if not sfm:
-        ctx.ob(R, f.module.rel, f"{f.short} :: SetFileMode appended", False, "SetFileMode is no longer added", f.node.lineno)
-    else:
-        st, g = sfm[-1]
-        ctx.ob(R, f.module.rel, f"{f.short} :: SetFileMode appended unconditionally", len(g) == 0,
-               "" if not g else f"appended only under {pyfront.guard_terms(g)}", st.lineno)
-        last = appends[-1][0] is st and st.value.func.attr == "append"
-        ctx.ob(R, f.module.rel, f"{f.short} :: SetFileMode is the last append", last,
-               "" if last else "another post-processor is added after SetFileMode (it would see/alter the final mode)", st.lineno)
-        arg = ast.unparse(st.value.args[0]) if st.value.args else ""
-        ok = "self._args.file_mode" in arg
-        ctx.ob(R, f.module.rel, f"{f.short} :: SetFileMode(self._args.file_mode)", ok, "" if ok else arg, st.lineno)
-    # returned list is the one appended to
+
+    def entries(fn, e, depth=0):
+        """the list an expression denotes as an ordered sequence of (element expression, guards under which it is added, statement), or None
+        when it cannot be followed: list literals, a local that is initialised and then appended to, `a + b`, the result of a private method"""
+        if depth > 4:
+            return None
+        if isinstance(e, ast.List):
+            return [(x, (), e) for x in e.elts]
+        if isinstance(e, ast.BinOp) and isinstance(e.op, ast.Add):
+            a, b = entries(fn, e.left, depth + 1), entries(fn, e.right, depth + 1)
+            return None if a is None or b is None else a + b
+        if isinstance(e, ast.Call) and isinstance(e.func, ast.Attribute) and isinstance(e.func.value, ast.Name) and e.func.value.id in ("self", "cls") \
+                and fn.cls is not None and e.func.attr in fn.cls.methods and not e.args and not e.keywords:
+            h = fn.cls.methods[e.func.attr]
+            rets_ = [r.value for r in ast.walk(h.node) if isinstance(r, ast.Return) and r.value is not None]
+            return entries(h, rets_[0], depth + 1) if len(rets_) == 1 else None
+        if isinstance(e, ast.Call) and isinstance(e.func, ast.Name) and e.func.id == "list" and len(e.args) == 1:
+            return entries(fn, e.args[0], depth + 1)
+        if isinstance(e, ast.Name):
+            out = None
+            for st, g in pyfront.walk_guarded(fn.node.body):
+                tg = st.targets[0] if isinstance(st, ast.Assign) and len(st.targets) == 1 else (st.target if isinstance(st, ast.AnnAssign) and st.value is not None else None)
+                if isinstance(tg, ast.Name) and tg.id == e.id:
+                    if g:
+                        return None      # conditionally re-initialised
+                    out = entries(fn, st.value, depth + 1)
+                    if out is None:
+                        return None
+                elif isinstance(st, ast.Expr) and isinstance(st.value, ast.Call) and isinstance(st.value.func, ast.Attribute) \
+                        and isinstance(st.value.func.value, ast.Name) and st.value.func.value.id == e.id and out is not None:
+                    c = st.value
+                    if c.func.attr == "append" and len(c.args) == 1:
+                        out = out + [(c.args[0], tuple(g), st)]
+                    elif c.func.attr == "insert" and len(c.args) == 2 and isinstance(c.args[0], ast.Constant) and c.args[0].value == 0:
+                        out = [(c.args[1], tuple(g), st)] + out
+                    elif c.func.attr == "extend" and len(c.args) == 1:
+                        sub = entries(fn, c.args[0], depth + 1)
+                        if sub is None:
+                            return None
+                        out = out + [(x, tuple(g) + tuple(g2), st) for x, g2, _s in sub]
+                    else:
+                        return None
+                elif isinstance(st, ast.AugAssign) and isinstance(st.target, ast.Name) and st.target.id == e.id and isinstance(st.op, ast.Add) and out is not None:
+                    sub = entries(fn, st.value, depth + 1)
+                    if sub is None:
+                        return None
+                    out = out + [(x, tuple(g) + tuple(g2), st) for x, g2, _s in sub]
+            return out
+        return None
+
     rets = [r for r in ast.walk(f.node) if isinstance(r, ast.Return) and r.value is not None]
-    receivers = {ast.unparse(st.value.func.value) for st, _g in appends}
-    ok = bool(rets) and len(receivers) == 1 and all(ast.unparse(r.value) in receivers for r in rets)
-    ctx.ob(R, f.module.rel, f"{f.short} :: returns the list it built", ok, "", f.node.lineno)
+    seq = entries(f, rets[0].value) if len(rets) == 1 else None
+    ok = seq is not None
+    ctx.ob(R, f.module.rel, f"{f.short} :: returns the list it built", ok, "" if ok else "the returned value is not a list built from literals, appends, concatenations or private builders", f.node.lineno)
+    if seq is not None:
+        sfm = [k for k, (x, g, st) in enumerate(seq) if "SetFileMode(" in ast.unparse(x)]
+        if not sfm:
+            ctx.ob(R, f.module.rel, f"{f.short} :: SetFileMode appended", False, "SetFileMode is no longer added", f.node.lineno)
+        else:
+            x, g, st = seq[sfm[-1]]
+            ctx.ob(R, f.module.rel, f"{f.short} :: SetFileMode appended unconditionally", len(g) == 0,
+                   "" if not g else f"appended only under {pyfront.guard_terms(g)}", st.lineno)
+            last = sfm[-1] == len(seq) - 1
+            ctx.ob(R, f.module.rel, f"{f.short} :: SetFileMode is the last append", last,
+                   "" if last else "another post-processor is added after SetFileMode (it would see/alter the final mode)", st.lineno)
+            arg = ast.unparse(x.args[0]) if isinstance(x, ast.Call) and x.args else ""
+            ok = "self._args.file_mode" in arg
+            ctx.ob(R, f.module.rel, f"{f.short} :: SetFileMode(self._args.file_mode)", ok, "" if ok else arg, st.lineno)
 
     # file post-processors after close
     for qual in ("CodeGenerator._generate_code", "SupportGenerator._copy_header"):
@@ -475,6 +520,57 @@ def rule_report(ctx, px):
     ctx.ob(R, "src/nunavut/cli/__init__.py", "the overwrite refusal reaches the caller of main() as an error (handlers inspected on the way up)", True, f"{n} handler(s) on the path")
 
 
+FS_PROBES = {"exists", "is_file", "is_dir", "stat", "lstat", "is_symlink", "samefile", "iterdir", "glob", "rglob", "access", "getmtime", "getsize", "isfile", "isdir", "listdir",
+             "scandir", "walk"}
+
+
+def rule_history_free(ctx, px):
+    R = "R-C12-GATE"
+    # what a run writes is decided by its arguments, not by what earlier runs left in the output directory: nothing on the way from the
+    # command line to the generators' generate_all() inspects the file system.  (Only the overwrite gate looks at an existing output, and
+    # only to refuse or to make it writable.)  A shortcut such as "skip the support files when they are already there and read-only"
+    # keeps stale content and mode of an earlier run made with other options.
+    gen = px.func(RUN_MOD, "ArgparseRunner._generate")
+    cls = gen.cls
+
+    def probes_in(fn, seen):
+        out = []
+        if fn.qual in seen:
+            return out
+        seen.add(fn.qual)
+        for c in ast.walk(fn.node):
+            if isinstance(c, ast.Call) and isinstance(c.func, ast.Attribute):
+                if c.func.attr in FS_PROBES:
+                    out.append(f"{fn.short}:{c.lineno} .{c.func.attr}()")
+                if isinstance(c.func.value, ast.Name) and c.func.value.id == "self" and cls is not None and c.func.attr in cls.methods and c.func.attr.startswith("_"):
+                    out += probes_in(cls.methods[c.func.attr], seen)
+        return out
+
+    n = 0
+    for st, g in pyfront.walk_guarded(gen.node.body):
+        for c in pyfront.expr_calls(st):
+            if not (isinstance(c.func, ast.Attribute) and c.func.attr == "generate_all"):
+                continue
+            n += 1
+            bad = []
+            for t_, _p in g:
+                t_n = pyfront.subst_locals(gen.node, t_)
+                # locals that are assigned more than once are followed through every assignment
+                names = {x.id for x in ast.walk(t_n) if isinstance(x, ast.Name)}
+                exprs = [t_n] + [a.value for a in ast.walk(gen.node) if isinstance(a, ast.Assign) and any(isinstance(tg, ast.Name) and tg.id in names for tg in a.targets)]
+                for e in exprs:
+                    for cc in ast.walk(e):
+                        if isinstance(cc, ast.Call) and isinstance(cc.func, ast.Attribute):
+                            if cc.func.attr in FS_PROBES:
+                                bad.append(f".{cc.func.attr}()")
+                            if isinstance(cc.func.value, ast.Name) and cc.func.value.id == "self" and cls is not None and cc.func.attr in cls.methods:
+                                bad += probes_in(cls.methods[cc.func.attr], set())
+            ctx.ob(R, gen.module.rel, f"{gen.short} :: {ast.unparse(c.func)}(...) is decided by the arguments of the run, not by the state of the output directory", not bad,
+                   "" if not bad else f"the call is conditioned on {sorted(set(bad))}: files left by an earlier run (made with other options or another --file-mode) decide "
+                   "whether this run rewrites them, so the result differs from a run into an empty directory", c.lineno)
+    ctx.floor(R + ":history-free", n, 2)
+
+
 def run(ctx):
     ctx.explanation = (
         "C12 is decided by must-pass-through rules on the generator classes: every create/truncate/copy of an output "
@@ -488,6 +584,7 @@ def run(ctx):
     px = pyfront.PyIndex(ctx.root)
     ctx.unit("python_modules", len(px.modules))
     rule_gate(ctx, px)
+    rule_history_free(ctx, px)
     rule_truncate(ctx, px)
     rule_gate_shape(ctx, px)
     rule_report(ctx, px)
